@@ -562,6 +562,53 @@ func genC17(o *Out, rng *rand.Rand, tier string) {
 			o.Emit(map[string]any{"op": "SetGet", "acc": acc, "val": val, "raw": B(p.Options[opt.Code.Code()]), "res": callAcc(a, q)}, "set-get-wire", append(key, 1), true)
 		}
 	}
+	// set -> get through the modifiers that set typed options; one modifier value serves several packets (a client
+	// passes the same modifiers to its DISCOVER and to its REQUEST): every packet reads back what was set
+	modget := func(acc string, mod dhcpv4.Modifier, val any, code uint8) {
+		var a accessor
+		for _, x := range accessors {
+			if x.name == acc {
+				a = x
+			}
+		}
+		for round := 0; round < 3; round++ {
+			p, _ := dhcpv4.New()
+			if round == 2 {
+				p, _ = dhcpv4.NewDiscovery(net.HardwareAddr{2, 0, 0, 0, 0, byte(round)})
+				p.DeleteOption(dhcpv4.GenericOptionCode(code)) // (the builder's own default list is not the subject here)
+			}
+			mod(p)
+			o.Emit(map[string]any{"op": "SetGet", "acc": acc, "val": val, "raw": B(p.Options[code]), "res": callAcc(a, p)}, "set-get-modifier",
+				append([]byte(fmt.Sprint("mg", acc, round)), p.Options[code]...), true)
+		}
+	}
+	for i := 0; i < n/4+3; i++ {
+		var codes []dhcpv4.OptionCode
+		cl := []int{}
+		seen := map[int]bool{}
+		for j := 1 + rng.Intn(6); j > 0; j-- {
+			c := 1 + rng.Intn(254)
+			if seen[c] {
+				continue
+			}
+			seen[c] = true
+			codes = append(codes, dhcpv4.GenericOptionCode(c))
+			cl = append(cl, c)
+		}
+		modget("ParameterRequestList", dhcpv4.WithRequestedOptions(codes...), cl, 55)
+		ip, ip2 := net.IP(randBytes(rng, 4)), net.IP(randBytes(rng, 4))
+		modget("Router", dhcpv4.WithRouter(ip, ip2), []any{B(ip), B(ip2)}, 3)
+		modget("DNS", dhcpv4.WithDNS(ip2), []any{B(ip2)}, 6)
+		m := net.CIDRMask(rng.Intn(33), 32)
+		modget("SubnetMask", dhcpv4.WithNetmask(m), B(m), 1)
+		secs := rng.Uint32()
+		modget("IPAddressLeaseTime", dhcpv4.WithLeaseTime(secs), u32b(secs), 51)
+		modget("IPv6OnlyPreferred", dhcpv4.WithIPv6OnlyPreferred(secs), u32b(secs), 108)
+		mt := 1 + rng.Intn(8)
+		modget("MessageType", dhcpv4.WithMessageType(dhcpv4.MessageType(mt)), []int{mt}, 53)
+		uc := randNoNul(rng, 1+rng.Intn(12))
+		modget("UserClass", dhcpv4.WithUserClass(uc, true), []any{B([]byte(uc))}, 77)
+	}
 	for i := 0; i < n; i++ {
 		ip := net.IP(randBytes(rng, 4))
 		if rng.Intn(2) == 0 {
